@@ -6,6 +6,7 @@ mod boundary;
 mod coeffs;
 mod config_check;
 mod domains;
+mod dynprofile;
 mod forge;
 mod matrix;
 mod mutate;
@@ -75,6 +76,7 @@ fn main() {
         "pubinput" => Some(pubinput::run(&args)),
         "parser" => Some(parser_check::run(&args)),
         "protocol" => Some(protocol::run(&args)),
+        "dynprofile" => Some(dynprofile::run(&args)),
         _ => vcomp::dispatch(&args),
     };
     match rep {
